@@ -170,6 +170,7 @@ func verify(args []string) int {
 	obls = append(obls, eng.CensusObligations(*prop)...)
 	obls = append(obls, eng.RegexObligations(*prop)...)
 	obls = append(obls, eng.StructuralObligations(*prop)...)
+	obls = append(obls, eng.CodecPairObligations(*prop)...)
 	if len(eng.SpecErrors) > 0 {
 		for _, e := range eng.SpecErrors {
 			undecided = append(undecided, "contract error: "+e)
